@@ -312,7 +312,22 @@ class Check:
             cmd += ["-replay", replay]
         cmd += fam.args
         t0 = time.time()
-        r = run(cmd, cwd=d, env=dict(GOENV, GOMEMLIMIT="6GiB", OW_HARNESS=harness))
+        # a family that does not finish (the code under test deadlocks or spins) must end as a verdict, not hang the check
+        limit = float(os.environ.get("VERIF_FAMILY_TIMEOUT_S", "1500" if tier == "quick" else "7200"))
+        import signal
+        p = subprocess.Popen(cmd, cwd=d, env=dict(GOENV, GOMEMLIMIT="6GiB", OW_HARNESS=harness), stdout=subprocess.PIPE,
+                             stderr=subprocess.PIPE, text=True, start_new_session=True)
+        try:
+            out, err = p.communicate(timeout=limit)
+        except subprocess.TimeoutExpired:
+            try:
+                os.killpg(p.pid, signal.SIGKILL)
+            except OSError:
+                pass
+            p.communicate()
+            return {"family": fam.label, "fam_name": fam.name, "gen_s": round(time.time() - t0, 2),
+                    "timeout": "family %s did not finish within %.0f s: the code under test hangs (deadlock / non-termination) on a generated case" % (fam.label, limit)}
+        r = subprocess.CompletedProcess(cmd, p.returncode, out, err)
         res = {"family": fam.label, "fam_name": fam.name, "gen_s": round(time.time() - t0, 2)}
         if r.returncode != 0:
             res["harness_error"] = (r.stderr or "")[-3000:]
@@ -461,6 +476,9 @@ class Check:
                 rfile = os.path.join(workdir, fam.name + ".replay.ops")
                 open(rfile, "w").write("\n".join(mine) + "\n")
             fr = self.run_family(harness, fam, seed, tier, workdir, rfile)
+            if "timeout" in fr:
+                problems.append({"kind": "correspondence", "name": fr["timeout"], "detail": fr["timeout"], "family": fam.label})
+                continue
             fam_results.append(fr)
             if "harness_error" in fr:
                 raise Internal("harness family %s failed:\n%s" % (fam.name, fr["harness_error"]))
